@@ -952,6 +952,12 @@ def check_labeling(ctx, case):
         return
     leaves = tree.leaves
     coherent = all(lf is not None and lf.index == i for i, lf in enumerate(leaves))
+    if not oor:
+        # a hand-built tree with a duplicated leaf index: the statement speaks about the trees the
+        # clustering functions return and about valid trees; refusing this misuse is not demanded
+        ctx.count("unspecified")
+        ctx.count("unspecified_duplicate_leaf_index_accepted")
+        return
     ctx.violation("Tree.__init__|accepts_%s|%s" % ("incoherent_leaves" if not coherent else "labeling",
                                                     "leaf_index_out_of_range" if oor else "duplicate_leaf_index"),
                   "a tree whose leaf indices are not exactly 0..n-1 was accepted; Tree.leaves = %r"
@@ -1011,7 +1017,11 @@ def check_misuse(ctx, case):
         state0 = [(x.parent, x.distance, x.is_root()) if isinstance(x, TreeNode) else None for x in kids]
         expect(lambda: TreeNode(kids, dists), classes, "TreeNode.__init__", sc)
         state1 = [(x.parent, x.distance, x.is_root()) if isinstance(x, TreeNode) else None for x in kids]
-        if state0 != state1:
+        if state0 != state1 and sc in ("child_has_parent", "child_is_root", "child_in_tree"):
+            # a refused construction that already re-parented the children before the offending one:
+            # atomic failure is not part of the statement -> recorded, not a violation
+            ctx.count("unspecified_refusal_not_atomic")
+        elif state0 != state1:
             changed = [i for i in range(k) if state0[i] != state1[i]]
             ctx.violation("TreeNode.__init__|earlier_children_keep_failed_parent|unavailable_child_after_first"
                           if sc in ("child_has_parent", "child_is_root", "child_in_tree")
